@@ -388,12 +388,15 @@ pub mod rfc {
             }
             N(min, max, inner) => {
                 let cap = max.unwrap_or(min + 4);
-                let n = match tape.next(6) {
+                let n = match tape.next(7) {
                     0 => *min,
                     1 => (min + 1).min(cap),
                     2 => cap,
                     3 => (min + 2).min(cap),
                     4 => min + tape.next(cap - min + 1),
+                    // an unbounded repetition is unbounded: now and then a long run (6-40 items), beyond any
+                    // small limit an implementation might have put on a port, a label, a number of segments
+                    6 if max.is_none() && depth < 40 => min + 5 + tape.next(35),
                     _ => cap.saturating_sub(1).max(*min),
                 };
                 let n = if depth > 200 { *min } else { n };
